@@ -565,6 +565,7 @@ where
 	let strategy = sim.strategy;
 	SIM.with(|s| *s.borrow_mut() = Some(sim));
 	verif::clear_client_tables();
+	verif::net::clear_listeners();
 	verif::set_gate_factory(Some(Box::new(|file, line| {
 		let id = with(|s| {
 			let name = if line == 0 {
